@@ -25,6 +25,8 @@ BIG = [(b"titan://h/big;size=100000\r\n" + b"z" * 300, None), (b"titan://h/big;s
 REQS = [  # (request bytes, number of bytes that make the request complete)
     (b"gemini://h/\r\n", 13), (b"gemini://h/some/longer/path?query=1\r\n", None), (b"titan://h/f;size=5\r\nhello", None),
     (b"titan://h/f;size=0\r\n", None), (b"titan://h/f;size=3;mime=text/plain;token=t\r\nabcTRAIL", None), (b"http://h/\r\n", None),
+    # non-ASCII request lines: a stall can fall in the middle of a multi-byte character
+    ("gemini://h/caf\u00e9/\u65e5\u672c?q=\U0001f600\r\n".encode(), None), ("titan://h/\u00fc;size=2\r\n".encode() + b"\xc3\xa9", None),
 ]
 
 
